@@ -8,6 +8,7 @@ import (
 	"encoding/json"
 	"fmt"
 	"math/big"
+	"reflect"
 	"sort"
 	"strconv"
 	"strings"
@@ -214,9 +215,10 @@ func checkC19(c C19Case) error {
 		// ordered: numerically (all numeric) or by the printed form — either is accepted
 		numOK, strOK := true, true
 		for i := 1; i < len(gl); i++ {
-			a, aerr := strconv.ParseFloat(fmt.Sprint(normJSON(gl[i-1])), 64)
-			b, berr := strconv.ParseFloat(fmt.Sprint(normJSON(gl[i])), 64)
-			if aerr != nil || berr != nil || a > b {
+			// exact comparison (integers beyond 2^53 are not distinguishable as float64)
+			a, _, aerr := big.ParseFloat(fmt.Sprint(normJSON(gl[i-1])), 10, 256, big.ToNearestEven)
+			b, _, berr := big.ParseFloat(fmt.Sprint(normJSON(gl[i])), 10, 256, big.ToNearestEven)
+			if aerr != nil || berr != nil || a.Cmp(b) > 0 {
 				numOK = false
 			}
 			if fmt.Sprint(normJSON(gl[i-1])) > fmt.Sprint(normJSON(gl[i])) {
@@ -364,6 +366,41 @@ func checkC19(c C19Case) error {
 		if strings.Join(gs, "\x00") != strings.Join(wk, "\x00") {
 			return fmt.Errorf("keys of the merged map = %s, want each of %v exactly once", showJ(keys), wk)
 		}
+		// keys of one map object before and after its owner replaced a key (same size): every key
+		// once, each time
+		data := zooCtx(ctx, 0)
+		eng := newEngine(map[string]string{"main": "{{ x|keys|json_encode }}#{% for k, v in x %}.{% endfor %}#{{ x|length }}"})
+		for round := 0; round < 2; round++ {
+			rv := reflect.ValueOf(data["x"])
+			if !rv.IsValid() || rv.Kind() != reflect.Map {
+				break
+			}
+			var wantKeys []string
+			for _, k := range rv.MapKeys() {
+				wantKeys = append(wantKeys, fmt.Sprint(k.Interface()))
+			}
+			sort.Strings(wantKeys)
+			r := render(eng, "main", data)
+			if r.Failed() {
+				return fmt.Errorf("keys/for/length on %s failed in round %d: %v", PrintE2(c.X), round, r)
+			}
+			parts := strings.Split(r.Out, "#")
+			var gotKeys []interface{}
+			if len(parts) != 3 || json.Unmarshal([]byte(parts[0]), &gotKeys) != nil {
+				return fmt.Errorf("harness: unexpected output %s", q(r.Out))
+			}
+			gotS := make([]string, len(gotKeys))
+			for i, k := range gotKeys {
+				gotS[i] = fmt.Sprint(k)
+			}
+			sort.Strings(gotS)
+			if strings.Join(gotS, "\x00") != strings.Join(wantKeys, "\x00") || len(parts[1]) != len(wantKeys) || parts[2] != fmt.Sprint(len(wantKeys)) {
+				return fmt.Errorf("round %d (%s): keys = %s, for ran %d times, length = %s; the map holds the keys %v", round, []string{"as given", "after its owner replaced one key by another"}[round], parts[0], len(parts[1]), parts[2], wantKeys)
+			}
+			if !c03SwapKey(map[string]interface{}{"x": data["x"]}) {
+				break
+			}
+		}
 	case "slice":
 		elems, ok := descElems(c.X)
 		if !ok {
@@ -505,7 +542,7 @@ func c19Tricky(x *E) bool {
 	return false
 }
 
-const c19Rule = "per law (idempotence of upper/lower/trim/capitalize; reverse involution; sort = ordered permutation; length = for-iterations = what first/last/slice see (for []byte as mutual agreement, whatever the unit); join/split round trip; list merge = concatenation, also for two merges of the same operand (slices with spare capacity); map merge = later wins + keys once; slice index rules) inputs of every supported type: strings (ASCII, multi-byte, special-casing letters, named string type), untyped lists, []int, []string, []float64, [3]int arrays, untyped and typed maps; slice arguments in [-(n+2), n+2] and omitted, written as literals and as nested filter chains; non-trivial = multi-byte string, typed slice/map, negative/out-of-range/omitted argument or empty input; distinct by (law, input, arguments)"
+const c19Rule = "per law (idempotence of upper/lower/trim/capitalize; reverse involution; sort = ordered permutation; length = for-iterations = what first/last/slice see (for []byte as mutual agreement, whatever the unit); join/split round trip; list merge = concatenation, also for two merges of the same operand (slices with spare capacity); map merge = later wins + keys once; slice index rules) inputs of every supported type: strings (ASCII, multi-byte, special-casing letters, named string type), untyped lists (for sort also of integers beyond 2^53 that differ by less than a float64 ulp, compared exactly), []int, []string, []float64, [3]int arrays, untyped and typed maps; slice arguments in [-(n+2), n+2] and omitted, written as literals and as nested filter chains; non-trivial = multi-byte string, typed slice/map, negative/out-of-range/omitted argument or empty input; distinct by (law, input, arguments)"
 
 func TestC19Laws(t *testing.T) {
 	r := NewRec(t, "C19", c19Rule)
@@ -532,6 +569,20 @@ func TestC19Laws(t *testing.T) {
 			nt = true
 		case "sort":
 			c.X = genListDesc(rt, rapid.SampledFrom([]string{"int", "str"}).Draw(rt, "lk"))
+			if rapid.IntRange(0, 5).Draw(rt, "bigints") == 0 {
+				// integers that differ by less than one float64 ulp (ids, nanosecond timestamps)
+				base := rapid.SampledFrom([]int64{1 << 53, 1 << 62, -(1 << 53) - 100, 1709647629000000000}).Draw(rt, "bigbase")
+				n := rapid.IntRange(2, 6).Draw(rt, "nbig")
+				items := make([]*E, n)
+				for i := range items {
+					items[i] = Int(base + int64(rapid.IntRange(0, 7).Draw(rt, "off")))
+				}
+				c.X = List(items...)
+				if rapid.Bool().Draw(rt, "typedbig") {
+					c.X = ZT(c.X, "[]int")
+				}
+				nt = true
+			}
 		case "joinsplit":
 			c.X = genListDesc(rt, "str")
 			c.Sep = rapid.SampledFrom([]string{",", "|", ";", "/", "-", "#"}).Draw(rt, "sep")
